@@ -71,6 +71,9 @@ pub fn check_case(_ctx: &Ctx, case: &Case, t: &mut Tally) {
         t.count("feature.cogeneration_exported");
         let fuels: Vec<&str> = case.spec.lines.iter().filter_map(|l| match l { crate::spec::Line::Used { srv, cr, .. } if srv == "COGEN" => Some(cr.as_str()), _ => None }).collect();
         let nearby = fuels.iter().filter(|c| crate::spec::NEARBY.contains(c)).count();
+        if fuels.iter().any(|c| crate::spec::ONSITE.contains(c)) {
+            t.count("feature.cogeneration_onsite_fuel");
+        }
         t.count(if nearby == fuels.len() { "feature.cogeneration_nearby_fuel" } else if nearby == 0 { "feature.cogeneration_distant_fuel" } else { "feature.cogeneration_mixed_fuels" });
     }
     if get(&fl, "balance_cr.EAMBIENTE.exp.an") + get(&fl, "balance_cr.TERMOSOLAR.exp.an") > 0.0 {
@@ -94,6 +97,7 @@ pub fn run(ctx: &Ctx) -> Report {
     let total = ctx.cases(15_000, 600_000);
     let mut o = GenOpts::default();
     o.long_steps = ctx.thorough();
+    o.onsite_cogen_fuel = true;
     let tally = run_sharded(ctx, total, |_idx, r, t| {
         let mut o = o.clone();
         match r.below(5) {
@@ -127,12 +131,13 @@ pub fn run(ctx: &Ctx) -> Report {
         ("feature.cogeneration_nearby_fuel".to_string(), tally.get("feature.cogeneration_nearby_fuel"), 100),
         ("feature.cogeneration_distant_fuel".to_string(), tally.get("feature.cogeneration_distant_fuel"), 100),
         ("feature.cogeneration_mixed_fuels".to_string(), tally.get("feature.cogeneration_mixed_fuels"), 30),
+        ("feature.cogeneration_onsite_fuel".to_string(), tally.get("feature.cogeneration_onsite_fuel"), 30),
         ("feature.ambient_or_solar_surplus".to_string(), tally.get("feature.ambient_or_solar_surplus"), 300),
         ("cases_with_strictly_nested_perimeters".to_string(), tally.get("cases_with_strictly_nested_perimeters"), 300),
     ];
     Report {
         tally,
-        rule: "generated buildings with non-negative values (PV exporting with and without electric use, ambient / solar surplus, biomass and district carriers, cogeneration with nearby, distant and mixed fuels, both load-matching modes) evaluated at k_exp = 0 with the four regulatory factor sets with or without non-negative user RED1 / RED2; checks RER = ren / (ren + nren) of the reported step B energy, RER in [0, 1], 0 <= RER_onst <= RER_nrb <= RER, all zero when the total is zero; non-trivial = electricity is exported or the three perimeters differ; distinct = distinct (components text, factors, area, mode)".into(),
+        rule: "generated buildings with non-negative values (PV exporting with and without electric use, ambient / solar surplus, biomass and district carriers, cogeneration with nearby, distant, mixed and on-site (ambient / solar) fuels, both load-matching modes) evaluated at k_exp = 0 with the four regulatory factor sets with or without non-negative user RED1 / RED2; checks RER = ren / (ren + nren) of the reported step B energy, RER in [0, 1], 0 <= RER_onst <= RER_nrb <= RER, all zero when the total is zero; non-trivial = electricity is exported or the three perimeters differ; distinct = distinct (components text, factors, area, mode)".into(),
         assumptions: vec![
             "cases whose total primary energy is below 1e-3 of the sum of magnitudes of its terms (rounding noise) are counted as degenerate and skipped".into(),
             "electricity as cogeneration input (physically meaningless) is not generated".into(),
